@@ -168,6 +168,11 @@ def probes():
         "toplevel_without_slot": acc(lambda: stix2.v21.ExternalReference(
             source_name="s", url="u", extensions={"foo": {"extension_type": "toplevel-property-extension"}}, anything="y")),
         "empty_extensions": acc(lambda: stix2.v21.Identity(name="n", extensions={})),
+        # C04: MarkingProperty.clean ignores the has_custom flag of an already wrapped definition
+        "marking_flag_ignored": acc(lambda: stix2.parse({
+            "type": "marking-definition", "spec_version": "2.1", "id": "marking-definition--" + u,
+            "created": "2017-06-24T13:09:27.000Z", "definition_type": "statement",
+            "definition": {"statement": "s", "custom_properties": {"x_via_loophole": 1}}})),
         "d2s_ext_nondict": exc_of(lambda: stix2.parse({"type": "x-unknown-type", "id": "x-unknown-type--" + u, "extensions": "abc"})),
     }
 
